@@ -307,12 +307,10 @@ def classify(entry, kind, info):
         return 'C15:henry-virial-fit-depends-on-loading-magnitude'
     if key == 'alpha_s' and kind == 'reference':
         rp, rl = info['rp'], info['rl']
-        if rp[0] == 'absolute' or info.get('sample_rp', ('relative',))[0] == 'absolute' and rp[0] != 'relative':
-            return 'C15:alphas-reference-absolute-mode'
+        if rp[0] != 'relative':     # the look-up passes no pressure_mode: the sample's RELATIVE pressures are read in the reference's own mode
+            return 'C15:alphas-reference-mode-not-named'
         if rl[0] != 'molar':
             return 'C15:alphas-reference-loading-basis-not-named'
-    if key == 'alpha_s' and kind == 'sample' and info.get('ref_rp', ('relative',))[0] == 'absolute':
-        return 'C15:alphas-reference-absolute-mode'
     if key == 'isosteric_enthalpy' and kind in ('representation', 'mixed'):
         modes = {r[0] for r in info['rps']}
         units = {r[1] for r in info['rps']}
@@ -344,6 +342,8 @@ def metamorphic(rep, tier, seed, isos):
         out = [(rnd.choice(PREPS), rnd.choice(LREPS), rnd.choice(['K', '°C'])) for _ in range(nvar)]
         out.append((('absolute', 'kPa'), ('mass', 'mg'), '°C'))
         out.append((('relative%', None), ('volume_gas', 'L'), 'K'))
+        out.append((('relative', None), ('mass', 'mg'), 'K'))
+        out.append((('absolute', 'bar'), ('volume_gas', 'cm3'), 'K'))
         return out
 
     SYN = {'syn-bet': ('area_BET', 't_plot', 'psd_mesoporous', 'psd_dft', 'initial_henry'), 'syn-langmuir': ('area_langmuir', 'initial_henry'),
